@@ -53,6 +53,8 @@ type c08RunVerdictParams struct {
 	MaxR   int    `json:"max_r"`
 	Ignore bool   `json:"ignore"`
 	Conc   int    `json:"conc"`
+	// Teardown: behaviour of a scenario-level cleanup (0 = passes); a failing one fails the run
+	Teardown int `json:"teardown,omitempty"`
 }
 
 // c08RunVerdict: the verdict of a real run - also one that ends through the completion timeout with an
@@ -68,6 +70,9 @@ func c08RunVerdict(c *core.Case, o *core.Outcome) {
 	var started, failedDone, passedDone atomic.Int64
 	total := p.Fail + 3
 	scenario := func(t *f1testing.T) f1testing.RunFn {
+		if p.Teardown != engine.BPass {
+			t.Cleanup(func() { engine.Behave(t, p.Teardown) })
+		}
 		return func(t *f1testing.T) {
 			n := int(started.Add(1))
 			switch {
@@ -124,14 +129,22 @@ func c08RunVerdict(c *core.Case, o *core.Outcome) {
 		return
 	}
 	// the other counts may include iterations released at the very end; the verdict is judged on the result's own counts
-	want := c08Reference(su, fa, dr, uint64(p.MaxF), p.MaxR, true, 0)
+	nErrs := 0
+	if p.Teardown != engine.BPass {
+		nErrs = 1
+	}
+	want := c08Reference(su, fa, dr, uint64(p.MaxF), p.MaxR, true, nErrs)
 	if r.Result.Failed() != want {
-		o.Violate("runverdict:"+desc, "Failed()=%v for a run with %d successful / %d failed / %d dropped, tolerances give %v (%s)", r.Result.Failed(), su, fa, dr, want, desc)
+		o.Violate("runverdict:"+desc, "Failed()=%v for a run with %d successful / %d failed / %d dropped and teardown %s, the documented rule gives %v (error reported: %v) (%s)", r.Result.Failed(), su, fa, dr, engine.BehaviourNames[p.Teardown], want, r.Result.Error(), desc)
+		return
+	}
+	if nErrs > 0 && r.Result.Error() == nil {
+		o.Violate("runverdict-teardown-error:"+desc, "the scenario's teardown failed (%s) but the result carries no error (%s)", engine.BehaviourNames[p.Teardown], desc)
 		return
 	}
 	_ = P
 	o.AddObs("decided_by_tolerance", 1)
-	o.Sig("runverdict:mode=%s:end=%s:hang=%v:fail>0=%v:maxF=%d:maxR=%d", p.Mode, p.Ending, p.Hang, p.Fail > 0, p.MaxF, p.MaxR)
+	o.Sig("runverdict:mode=%s:end=%s:hang=%v:fail>0=%v:maxF=%d:maxR=%d:teardownfails=%v", p.Mode, p.Ending, p.Hang, p.Fail > 0, p.MaxF, p.MaxR, nErrs > 0)
 	o.Sample = map[string]any{"case": desc, "result": []uint64{su, fa, dr}, "failed_verdict": r.Result.Failed()}
 }
 
@@ -258,6 +271,13 @@ func init() {
 			for k := 0; k < nrv; k++ {
 				p := c08RunVerdictParams{Mode: pick(r, "users", "constant", "custom"), Ending: pick(r, "duration", "limit", "cancel"), Fail: r.IntN(4), Hang: k%2 == 0,
 					MaxF: pick(r, 0, 0, 1, 2), MaxR: pick(r, 0, 0, 30, 60), Ignore: r.IntN(2) == 0, Conc: pick(r, 2, 4)}
+				if k%3 == 2 {
+					// an otherwise tolerated (or clean) run whose scenario-level cleanup fails
+					p.Teardown = pick(r, engine.BFail, engine.BFailNow, engine.BErrorf, engine.BPanicString, engine.BRequire)
+					if r.IntN(2) == 0 {
+						p.Fail = 0
+					}
+				}
 				c := core.MkCase("C08", "runverdict", k, seed, p)
 				c.Race = k%2 == 0
 				c.TimeoutMS = 60000
